@@ -327,7 +327,7 @@ func init() {
 		m := m
 		p.Strata = append(p.Strata, mon.Stratum{
 			Name: "bulky-members/" + m.Name,
-			N:    qt(400, 20000),
+			N:    qt(400, 8000),
 			Run: func(c *mon.Ctx, i int) {
 				// members that are long strings (beyond 64 KiB too) differing only in the middle; high multiplicities
 				r := c.R
